@@ -124,6 +124,22 @@ func corpus() []*Case {
 		c.Contact.Fields["gender"] = "red"
 		out = append(out, c)
 	}
+	// second hunt, finding 1: two declarations of one key whose categories differ in letter case only
+	{
+		n2 := &Node{UUID: b.id(kNode), Actions: []*Action{{Type: "set_run_result", UUID: b.id(kAction), Behav: "set_run_result", ResultName: "color", Category: "RED",
+			Items: []Item{plainTpl("value", "#ff0000")}, Extra: map[string]any{}}}}
+		n2.Exits = []Exit{b.exit("")}
+		e1, e2 := b.exit(n2.UUID), b.exit("")
+		c1, c2 := b.id(kCat), b.id(kCat)
+		n1 := &Node{UUID: b.id(kNode), Actions: []*Action{}, Exits: []Exit{e1, e2},
+			Router: &Router{Type: "switch", Operand: "@input.text", ResultName: "Color", Default: c2,
+				Cats:  []Category{{UUID: c1, Name: "Red", Exit: e1.UUID}, {UUID: c2, Name: "Other", Exit: e2.UUID}},
+				Cases: []RCase{{UUID: b.id(kCase), Type: "has_any_word", Cat: c1, Args: TField{Key: "arguments", Shape: "list", Localized: true, Vals: []string{"red"}}}},
+				Wait:  &Wait{Type: "msg"}}}
+		c := baseCase("corpus-category-case-variants", mkflow(0, n1, n2))
+		c.History = []Resume{{Kind: "msg", Text: "I like red"}}
+		out = append(out, c)
+	}
 	// hunt finding 2: open_ticket without topic falls back to the topic named "General"
 	{
 		n := &Node{UUID: b.id(kNode), Actions: []*Action{{Type: "open_ticket", UUID: b.id(kAction), Behav: "saver", ResultName: "Ticket",
